@@ -1,5 +1,7 @@
 -- Root of the `CaddyModel` library: every property's model, spec, lemmas and theorems.
 import CaddyModel.Util.Hex
 import CaddyModel.Util.DrvMain
-import CaddyModel.C18.Props
+import CaddyModel.C05.Driver
+import CaddyModel.C05.Props
 import CaddyModel.C18.Driver
+import CaddyModel.C18.Props
